@@ -2029,7 +2029,10 @@ def k5_sheets(ctx):
                         deco.append("2023-03-15")
                     elif kinds == "error":
                         val = 7
+                        # the error cell's displayed text (xlrd error code 7 = #DIV/0!); the generic
+                        # placeholder is accepted as well
                         deco.append("#ERROR")
+                        deco.append("#DIV/0!")
                     elif kinds == "bool":
                         val = 1
                     elif kinds in ("int", "float-int"):
